@@ -25,7 +25,7 @@ RULE = (
     "simulator built from the request multiset; a state is the canonical multiset of requested edges; non-trivial = the "
     "synapses change the voltages by > 1e-6 mV relative to the unconnected network"
 )
-REQUIRED_COVER = ["eight_or_more_edges_interleaved", "autapse", "fan_in", "interleaved_types", "post_area_distinct", "same_cell_pair",
+REQUIRED_COVER = ["many_edges_interleaved", "autapse", "fan_in", "interleaved_types", "post_area_distinct", "same_cell_pair",
                   "accepted:jaxley.stone", "accepted:jaxley.thomas", "accepted:jax.sparse",
                   "api:type_view", "api:global_edge", "api:select_edges", "zero_g"]
 ASSUMPTIONS = [
@@ -233,7 +233,7 @@ def run_history(netname, seq, forms, want_zero=True, nsteps=NSTEPS):
     if any((p, q) == ("D", "A") for p, q, _ in seq):
         out["cover"].append("same_cell_pair")
     if len(seq) >= 6 and feats["interleaved"]:
-        out["cover"].append("eight_or_more_edges_interleaved")
+        out["cover"].append("many_edges_interleaved")
     if seq:
         for gi in range(len(seq)):
             out["cover"].append("api:" + forms[gi % len(forms)])
